@@ -136,7 +136,7 @@ impl<BE: Backend, BRA: BlindRotationAlgo> BlindRotationKeyPrepared<DeviceBuf<BE>
 pub fn mod_switch_2n(n: usize, res: &mut [i64], lwe: &LWE<&[u8]>, rot_dir: LookUpTableRotationDirection) {
     let base2k: usize = lwe.base2k().into();
 
-    let log2n: usize = usize::BITS as usize - (n - 1).leading_zeros() as usize + 1;
+    let log2n: usize = usize::BITS as usize - (n - 1).leading_zeros() as usize;
 
     res.copy_from_slice(lwe.data().at(0, 0));
 
@@ -148,7 +148,7 @@ pub fn mod_switch_2n(n: usize, res: &mut [i64], lwe: &LWE<&[u8]>, rot_dir: LookU
     }
 
     if base2k > log2n {
-        let diff: usize = base2k - (log2n - 1); // additional -1 because we map to [-N/2, N/2) instead of [0, N)
+        let diff: usize = base2k - log2n;
         res.iter_mut().for_each(|x| {
             *x = div_round_by_pow2(x, diff);
         })
